@@ -212,9 +212,17 @@ func c09Inputs(r *core.Run, i int) []byte {
 		return b.Bytes()
 	case 2: // long lines inside the dump
 		d := gen.GenDump(rr, &gen.Cfg{MaxG: 3, MaxFrames: 4, MaxDepth: 2, LongLines: true}, rr.Intn(864))
+		if rr.Chance(1, 4) {
+			return append([]byte("\xef\xbb\xbf"), d.Render()...) // BOM directly in front of the first header
+		}
 		return append([]byte("pre\n"), d.Render()...)
 	default:
 		c := genStreamCase(r, 9, i)
+		if i%12 == 5 {
+			// a byte-order mark (or another short non-ASCII prefix) glued to the first line: whatever the library makes
+			// of it, it makes the same of it under every delivery
+			return append([]byte(rr.Pick([]string{"\xef\xbb\xbf", "\xff\xfe", "\xef\xbb", "\x00"})), c.Stream.Render()...)
+		}
 		return c.Stream.Render()
 	}
 }
